@@ -1171,7 +1171,14 @@ extern void
 io_close(file_pair *pair, bool success)
 {
 	// Take care of sparseness at the end of the output file.
-	if (success && pair->dest_try_sparse
+	//
+	// If the operation failed but the output went to standard output,
+	// this is still needed: the file isn't going to be removed and
+	// the zeros that were decoded before the error have only been
+	// counted so far, not written. Without this the file would be
+	// shorter than what e.g. a pipe would have received.
+	if ((success || pair->dest_fd == STDOUT_FILENO)
+			&& pair->dest_try_sparse
 			&& pair->dest_pending_sparse > 0) {
 		// Seek forward one byte less than the size of the pending
 		// hole, then write one zero-byte. This way the file grows
